@@ -65,6 +65,22 @@ def _mk_cmp(op, l, r):
     return ('cmp', op, l, r)
 
 
+_POSITIVE = {'is not': 'is', '!=': '==', 'not in': 'in'}
+
+
+def _mk_ifexp(t, a, b):
+    """Canonical conditional expression: the test is never a negation nor a negative
+    comparison (`a if not c else b` == `b if c else a`, `a if x is not None else b` ==
+    `b if x is None else a`)."""
+    while True:
+        if t[0] == 'unary' and t[1] == 'not':
+            t, a, b = t[2], b, a
+        elif t[0] == 'cmp' and t[1] in _POSITIVE:
+            t, a, b = ('cmp', _POSITIVE[t[1]], t[2], t[3]), b, a
+        else:
+            return ('ifexp', t, a, b)
+
+
 def _mk_attr(base, name):
     if base[0] == 'global':
         return ('global', base[1] + '.' + name)
@@ -175,7 +191,7 @@ def to_term(e, sc):
             pairs.append((to_term(k, sc) if k is not None else ('starred', NONE), to_term(v, sc)))
         return _mk_dict(pairs)
     if T is ast.IfExp:
-        return ('ifexp', to_term(e.test, sc), to_term(e.body, sc), to_term(e.orelse, sc))
+        return _mk_ifexp(to_term(e.test, sc), to_term(e.body, sc), to_term(e.orelse, sc))
     if T is ast.Starred:
         return ('starred', to_term(e.value, sc))
     if T in (ast.ListComp, ast.SetComp, ast.GeneratorExp, ast.DictComp):
